@@ -169,7 +169,7 @@ def batch_dot(gs1, ps1, cs1, gs2, ps2, cs2):
     (L2, N2) = gs2.shape
     gs = numpy.empty((L1,L2,N2), dtype=numpy.int_)
     ps = numpy.empty((L1,L2), dtype=numpy.int_)
-    cs = numpy.empty((L1,L2), dtype=numpy.complex_)
+    cs = numpy.empty((L1,L2), dtype=numpy.complex128)
     for j1 in range(L1):
         for j2 in range(L2):
             ps[j1,j2] = (ps1[j1] + ps2[j2] + ipow(gs1[j1], gs2[j2]))%4
@@ -793,7 +793,7 @@ def binary_repr(ints, width = None):
     Returns:
     new array where each integter is unpacked to binary subarray.
     '''
-    width = numpy.ceil(numpy.log2(numpy.max(ints)+1)).astype(numpy.int) if width is None else width
+    width = numpy.ceil(numpy.log2(numpy.max(ints)+1)).astype(int) if width is None else width
     dt0 = ints.dtype
     dt1 = numpy.dtype((dt0, [('bytes','u1',dt0.itemsize)]))
     bins = numpy.unpackbits(ints.view(dtype=dt1)['bytes'], axis=-1, bitorder='little')
